@@ -169,9 +169,16 @@ def r3(ctx, cfg):
                 to, amt = found.get("to_address"), found.get("amount")
                 d = "Mint{to: %s, amount: %s}" % (fmt(to)[:80], fmt(amt)[:120])
                 ok_to = contains(to, lambda x: x[0] == "call" and x[1] == DK + "get_withdraw_address" and is_param(x[2][1], "sender"))
-                ok_amt = contains(amt, lambda x: x[0] == "agg" and x[1].startswith("cosmwasm_std::Coin") and
-                                  peel(dict(x[2])["amount"])[0] == "ok" and contains(dict(x[2])["amount"], lambda y: y[0] == "call" and y[1] == DK + "remove_rewards") and
-                                  contains(dict(x[2])["denom"], lambda y: y[0] == "field" and y[2] == "bonded_denom"))
+                def _is_reward(o):
+                    o = peel(o)
+                    while o[0] == "call" and o[1].endswith(("Uint128::u128", "Uint128::new", "Uint128::from")):
+                        o = peel(o[2][0])       # `coin(rewards.u128(), ..)` round trip through the integer
+                    return o[0] == "ok" and contains(o, lambda y: y[0] == "call" and y[1] == DK + "remove_rewards")
+                # `Coin { amount, denom }` or `coin(amount.u128(), denom)`
+                ok_amt = contains(amt, lambda x: (x[0] == "agg" and x[1].startswith("cosmwasm_std::Coin") and _is_reward(dict(x[2])["amount"]) and
+                                                  contains(dict(x[2])["denom"], lambda y: y[0] == "field" and y[2] == "bonded_denom")) or
+                                  (x[0] == "call" and x[1] == "cosmwasm_std::coin" and len(x[2]) == 2 and _is_reward(x[2][0]) and
+                                   contains(x[2][1], lambda y: y[0] == "field" and y[2] == "bonded_denom")))
                 ok = ok_to and ok_amt
             ctx.ob(R, DEXEC, "mints(remove_rewards(sender,validator)) to withdraw address in bonded denom", ok, "withdrawal performs %s" % d, fn=f, line=t["line"], sample=d[:200])
             rr = q.calls(f, DK + "remove_rewards")
